@@ -63,6 +63,10 @@ Qed.
 Lemma parse_st_some f s st t s' st' : rnode_parse_st f s st = ReSyntax.Ok ((Some t, s'), st') -> rnode_parse f s = ReSyntax.Ok (Some t, s').
 Proof. rewrite parse_st_pure. destruct (rnode_parse f s) as [[r s1]| |]; cbn [lift]; intro H; try discriminate. injection H as -> -> _. reflexivity. Qed.
 
+(* a quantified fact the arithmetic procedures need not look into *)
+Definition Hide (P : Prop) : Prop := P.
+Ltac hide H := match type of H with ?T => change (Hide T) in H end.
+
 (* ------------------------------------------------------------------ regcomp *)
 Definition compiled (m' : mem) (bpreg : nat) (cflg : Z) (P : list instr) (lo : nat) : Prop :=
   exists bre bp cells, nth_error m' bpreg = Some [VPtr bre 0] /\ nth_error m' bre = Some [VPtr bp 0; VInt (Z.of_nat (length P)); VInt cflg] /\
@@ -126,7 +130,7 @@ Section Regcomp.
     (forall j, (j < length m)%nat -> j <> G_re_bad -> j <> bpreg -> nth_error m' j = nth_error m j) /\
     (exists o, nth_error m' (length m) = Some [VPtr bl o]) /\
     match res with
-    | Some p => compiled m' bpreg cflg (code p) (S (length m))
+    | Some p => compiled m' bpreg cflg (code p) (S (length m)) /\ atoms_ok pat (tree p) /\ eok (tree p)
     | None => nth_error m' bpreg = Some [pv] /\ dead m' (S (length m)) (length m')
     end.
 
@@ -143,6 +147,7 @@ Section Regcomp.
     assert (F4 : forall j, (j < length m)%nat -> j <> G_re_bad -> nth_error m4 j = nth_error m j).
     { intros j Hj Nj. rewrite B4 by (try lia; unfold bpp; lia). unfold m3, m2. mnth. reflexivity. }
     assert (Hpreg4 : nth_error m4 bpreg = Some [pv]) by (rewrite F4 by (pose proof G_re_bad_lt; lia); exact Hpreg).
+    hide F4. hide B4.
     unfold rc_tail. cbn [fn_body cf_regcomp].
     destruct r as [t|]; cbn [of_opt] in *.
     2:{ (* nothing parsed: return 1 *)
@@ -160,6 +165,7 @@ Section Regcomp.
     { split; [unfold bad_at; rewrite F5 by lia; exact Hb4|]. split; [lia|].
       split; [intros j Hj N1 N2; rewrite F5 by lia; apply F4; assumption|].
       split; [eexists; rewrite F5 by (unfold bpp in *; lia); exact Hp4|]. split; [rewrite F5 by lia; exact Hpreg4|rewrite L5; exact D5]. }
+    hide F5. hide D5.
     pose proof Hb4 as Hb4'. unfold bad_at in Hb4'. xs. xld Hb4'. xs. rewrite (wrap_I32_id (b2z st')) by (destruct st'; cbn; lia). rewrite ?nb2z.
     destruct st'; cbn [orb] in Hr.
     { injection Hr as <- <-. xs. rewrite C5. xs. exists m5. split; [reflexivity|exact Rj]. }
@@ -192,6 +198,7 @@ Section Regcomp.
     (* rnode_grpnum(rnode, 1) *)
     destruct (tr_rnode_grpnum fuel t m4 (S (length m)) (length m4) (VPtr bt 0) 1%nat (S (S (S d))) T4 ltac:(lia) ltac:(lia)) as [m6 [C6 [T6 [L6 [F6 _]]]]].
     fold t' in T6. change (Z.of_nat 1) with 1 in C6. rewrite C6. xs.
+    hide F6.
     (* re = malloc; memset; re->p = malloc; memset *)
     rewrite malloc_ok by lia. xs. change (Z.to_nat 3) with 3%nat.
     rewrite (memset_ok _ (length m6) 0 0 3 (repeat VUndef 3)) by (try apply nth_error_app_new; cbn [repeat length]; lia). xs. rewrite upd_app_new.
@@ -223,11 +230,15 @@ Section Regcomp.
     assert (F7 : forall j, (j < length m6)%nat -> nth_error m7 j = nth_error m6 j).
     { intros j Hj. unfold m7, m7a. rewrite !mem_upd_other by (try (rewrite ?upd_length by (rewrite !app_length; cbn [length]; unfold bre; lia); rewrite !app_length; cbn [length]; unfold bre, bp; lia); unfold bre, bp; lia).
       rewrite !nth_error_app_old by (rewrite ?app_length; cbn [length]; lia). reflexivity. }
+    clearbody m7 cells0. clear Hre7a Hbp7a Hre0. clearbody m7a.
+    hide F7.
     assert (Lm64 : length m6 = length m4) by exact L6.
     assert (Fr6 : forall j, (j < S (length m))%nat -> nth_error m6 j = nth_error m4 j) by (intros j Hj; apply F6; lia).
+    hide Fr6.
     (* MARK 0 *)
     destruct (ins_field bre bp Nn fuel Nbp HN Hfu m7 0 cells0 109 5 0 (S (S d)) E7 ltac:(lia) ltac:(unfold i32; lia) ltac:(lia) ltac:(lia))
       as [m8 [m9 [cA [cB [C8 [E8 [S9 [E9 [L9 [F9 [K91 [K92 [K93 [F8 L8]]]]]]]]]]]]]].
+    hide F9. hide K93. hide F8.
     rewrite C8. xs. rewrite (ld_p bre bp Nn Nbp _ _ _ E8). xs. change (0 + 6 * Z.of_nat 0 + 1 * 5) with (Z.of_nat (6 * 0 + 5)). rewrite S9. xs.
     (* rnode_emit(rnode, re) *)
     assert (T9 : tree_in m9 t' (S (length m)) (length m4) (VPtr bt 0)).
@@ -235,10 +246,12 @@ Section Regcomp.
     destruct (emit_ok bre bp Nn fuel Nbp HN Hfu t' m9 (S (length m)) (length m4) (VPtr bt 0) 1%nat cB (S (S (S d))) T9 Hok' E9 ltac:(lia) ltac:(unfold bre; lia) ltac:(unfold bp; lia) ltac:(lia))
       as [m10 [C10 P10]].
     rewrite C10. xs. destruct P10 as [c10 [E10 [G10 [K10 [L10 M10]]]]].
+    hide G10. hide K10. hide M10.
     rewrite (emit_n_length t' (eok_wf t' Hok')) in E10. set (q := (1 + nlen t')%nat) in *.
     (* MARK 1, MATCH *)
     destruct (ins_field bre bp Nn fuel Nbp HN Hfu m10 q c10 109 5 1 (S (S d)) E10 ltac:(unfold q; lia) ltac:(unfold i32; lia) ltac:(lia) ltac:(lia))
       as [m11 [m12 [cC [cD [C11 [E11 [S12 [E12 [L12 [F12 [K121 [K122 [K123 [F11 L11]]]]]]]]]]]]]].
+    hide F12. hide K123. hide F11.
     rewrite C11. xs. rewrite (ld_p bre bp Nn Nbp _ _ _ E11). xs. replace (0 + 6 * Z.of_nat q + 1 * 5) with (Z.of_nat (6 * q + 5)) by lia. rewrite S12. xs.
     destruct (tr_re_insert bre bp Nn fuel Nbp HN m12 (S q) cD 113 (S (S d)) E12 ltac:(unfold q; lia) ltac:(unfold i32; lia)) as [C13 E13].
     rewrite C13. xs. set (cE := upd cD (6 * S q + 2) (VInt 113)) in *. set (m13 := upd (upd m12 bre [VPtr bp 0; VInt (Z.of_nat (S (S q))); VInt 0]) bp cE) in *.
@@ -246,15 +259,24 @@ Section Regcomp.
     destruct (est_lt _ _ _ _ _ _ E12) as [B121 B122]. pose proof E12 as [_ [_ ClD]].
     assert (L13 : length m13 = length m12) by (unfold m13; mlen).
     assert (F13 : forall j, j <> bre -> j <> bp -> nth_error m13 j = nth_error m12 j) by (intros j N1 N2; unfold m13; mnth; reflexivity).
+    hide F13.
     assert (Low13 : forall j, (j < length m6)%nat -> nth_error m13 j = nth_error m6 j).
     { intros j Hj. rewrite F13 by (unfold bre, bp; lia). rewrite F12 by (unfold bre, bp; lia). rewrite M10 by (try lia; unfold bre, bp; lia).
       rewrite F9 by (unfold bre, bp; lia). apply F7. exact Hj. }
+    hide Low13.
+    assert (Hbp13 : nth_error m13 bp = Some cE) by (unfold m13; apply mem_upd_same; mlen).
+    assert (Hre13 : nth_error m13 bre = Some [VPtr bp 0; VInt (Z.of_nat (S (S q))); VInt 0]) by (unfold m13; mnth; reflexivity).
+    assert (EcE1 : forall j, j <> (6 * S q + 2)%nat -> nth_error cE j = nth_error cD j) by (intros j Nj; unfold cE; apply nth_upd_other; lia).
+    assert (EcE2 : nth_error cE (6 * S q + 2) = Some (VInt 113)) by (unfold cE; apply nth_upd_same; lia).
+    clearbody m13 cE. clear C8 C10 C11 C13 S9 S12.
+    hide EcE1.
     assert (T13 : tree_in m13 t' (S (length m)) (length m4) (VPtr bt 0)) by (apply (tree_in_same m6); [exact T6|intros j Hj; apply Low13; lia]).
     assert (Ne' : t' <> NNil) by (unfold t'; destruct t; cbn; try congruence; repeat match goal with |- context [grpnum ?a ?b] => destruct (grpnum a b) end; discriminate).
     destruct (tr_rnode_free fuel t' m13 (S (length m)) (length m4) (VPtr bt 0) (S (S (S d))) T13 Ne' ltac:(lia)) as [m14 [C14 [D14 [L14 F14]]]].
     rewrite C14. xs.
+    hide D14. hide F14.
     (* re->flg = flg; *preg = re; return 0 *)
-    assert (Hre14 : nth_error m14 bre = Some [VPtr bp 0; VInt (Z.of_nat (S (S q))); VInt 0]) by (rewrite F14 by (unfold bre; lia); unfold m13; mnth; reflexivity).
+    assert (Hre14 : nth_error m14 bre = Some [VPtr bp 0; VInt (Z.of_nat (S (S q))); VInt 0]) by (rewrite F14 by (unfold bre; lia); exact Hre13).
     xst Hre14. xs. rewrite (wrap_I32_id cflg Hflg).
     set (m15 := upd m14 bre [VPtr bp 0; VInt (Z.of_nat (S (S q))); VInt cflg]).
     assert (Hpreg15 : nth_error m15 bpreg = Some [pv]).
@@ -270,7 +292,7 @@ Section Regcomp.
     { intros j Hj N1 Hout. unfold m16, m15. rewrite mem_upd_other by (try (rewrite ?upd_length by lia; lia); exact N1). rewrite mem_upd_other by (try lia; unfold bre; lia).
       rewrite F14 by lia. rewrite Low13 by lia. apply F6. lia. }
     assert (EcD : forall j, j <> (6 * q + 2)%nat -> j <> (6 * q + 5)%nat -> j <> (6 * S q + 2)%nat -> nth_error cE j = nth_error c10 j).
-    { intros j N1 N2 N3. unfold cE. rewrite nth_upd_other by lia. apply K123; assumption. }
+    { intros j N1 N2 N3. rewrite EcE1 by exact N3. apply K123; assumption. }
     assert (Hi16 : forall j, (length m7 <= j < length m10)%nat -> nth_error m16 j = nth_error m10 j).
     { intros j Hj. unfold m16, m15. rewrite mem_upd_other by (try (rewrite ?upd_length by lia; lia); lia). rewrite mem_upd_other by (try lia; unfold bre; lia).
       rewrite F14 by lia. rewrite F13 by (unfold bre, bp; lia). apply F12; unfold bre, bp; lia. }
@@ -278,6 +300,7 @@ Section Regcomp.
     split; [unfold bad_at; rewrite G16 by lia; exact Hb4|]. split; [lia|].
     split; [intros j Hj N1 N2; rewrite G16 by lia; apply F4; assumption|].
     split; [eexists; rewrite G16 by (unfold bpp in *; lia); exact Hp4|].
+    split; [|split; [cbn [tree]; apply atoms_ok_grpnum; exact A4|cbn [tree]; exact Hok']].
     exists bre, bp, cE.
     split; [unfold m16; apply mem_upd_same; lia|].
     split.
@@ -285,7 +308,7 @@ Section Regcomp.
       cbn [code app length]. rewrite app_length, (emit_n_length t' (eok_wf t' Hok')). cbn [length]. repeat f_equal. unfold q. lia. }
     split.
     { unfold m16. rewrite mem_upd_other by (first [lia | unfold bp; lia]). unfold m15. rewrite mem_upd_other by (first [lia | exact (not_eq_sym Nbp)]).
-      rewrite F14 by (unfold bp; lia). unfold m13. apply mem_upd_same. mlen. }
+      rewrite F14 by (unfold bp; lia). exact Hbp13. }
     split.
     { cbn [code]. change (IMark 0 :: emit_n t' 1 ++ [IMark 1; IMatch]) with ([IMark 0] ++ emit_n t' 1 ++ [IMark 1; IMatch]). apply (code_ok_app bre bp Nn Nbp); [apply code_ok_one|apply (code_ok_app bre bp Nn Nbp)].
       - split; [rewrite EcD by (unfold q; lia); rewrite G10 by lia; exact K91|rewrite EcD by (unfold q; lia); rewrite G10 by lia; exact K92].
@@ -294,8 +317,8 @@ Section Regcomp.
         + intros j Hj. rewrite (emit_n_length t' (eok_wf t' Hok')) in Hj. apply EcD; unfold q; lia.
       - replace (0 + length [IMark 0] + length (emit_n t' 1))%nat with q by (rewrite (emit_n_length t' (eok_wf t' Hok')); cbn [length]; unfold q; lia). intros k i Hk.
         destruct k as [|[|k]]; cbn [nth_error] in Hk; [| |destruct k; discriminate Hk]; injection Hk as <-.
-        + rewrite Nat.add_0_r. split; [unfold cE; rewrite nth_upd_other by lia; exact K121|unfold cE; rewrite nth_upd_other by lia; exact K122].
-        + replace (q + 1)%nat with (S q) by lia. split; [unfold cE; apply nth_upd_same; lia|exact I]. }
+        + rewrite Nat.add_0_r. split; [rewrite EcE1 by lia; exact K121|rewrite EcE1 by lia; exact K122].
+        + replace (q + 1)%nat with (S q) by lia. split; [exact EcE2|exact I]. }
     split; [unfold bre; lia|]. split; [unfold bp; lia|]. split; [exact Nbp|]. split; lia.
   Qed.
 End Regcomp.
